@@ -496,7 +496,7 @@ def is_lossy_channel_send(cal):
     return cal.startswith("tokio::sync::mpsc") and cal.split("::")[-1] in ("try_send", "try_reserve", "try_reserve_owned", "send_timeout")
 
 
-@rule("C11", "C11-I7", 1, "the daemon never mistakes a busy transaction for a finished one, and no indication is dropped because the user's queue is momentarily full: PDUs, commands and indications are handed over with the waiting send (which fails only when the receiving end is gone), never with a send that also fails on a full queue", also=("C19",))
+@rule("C11", "C11-I7", 1, "the daemon never mistakes a busy transaction for a finished one, and no indication is dropped because the user's queue is momentarily full: PDUs, commands and indications are handed over with the waiting send (which fails only when the receiving end is gone), never with a send that also fails on a full queue", also=("C10", "C19"))
 def c11_i7(ctx):
     fns = [f for f in ctx.prog.by_norm.values() if f.crate == "cfdp_daemon"]
     if len(fns) < 50:
